@@ -142,3 +142,191 @@ func init() {
 			return ""
 		})
 }
+
+// ------------------------------------------------------------------ C09
+
+func c09Scen(name string, n int, opts ...opt) *Scenario {
+	sc := timedScen(name, n, "C09", opts...)
+	sc.SyncDefault = true
+	sc.MaxView = 7
+	sc.MaxDecideView = -1
+	sc.MaxDepth = 1500
+	sc.Dev = Dev{Reorder: true, Hold: true}
+	return sc
+}
+
+func init() {
+	// one worker per cut set: every cut instant of the default schedule x durations, each explored with <=k deviations
+	customJobs["c09cuts"] = func(j *Job, budget time.Duration) *Result {
+		base := j.Scenario
+		agg := &Result{Scenario: base.Name, Mode: "kbound", K: base.K, Exhaustive: true, Stats: newStats(), Extra: map[string]int{}}
+		start := time.Now()
+		// length of the fault-free default schedule
+		probe := *base
+		probe.CutSet = nil
+		probe.RestartAt = 0
+		w := newWorld(&probe, nil)
+		steps := 0
+		for {
+			evs := w.enabled()
+			if len(evs) == 0 || evs[0].Cost != 0 {
+				break
+			}
+			w.apply(evs[0])
+			steps++
+		}
+		stride := j.Args["stride"]
+		if stride == 0 {
+			stride = 1
+		}
+		for at := 1; at <= steps; at += stride {
+			for _, dur := range []int{1, 3, 8} {
+				if j.Args["restart"] == 1 && dur != 1 {
+					continue
+				}
+				sc := *base
+				sc.e2cache = nil
+				if j.Args["restart"] == 1 {
+					sc.RestartAt = at
+					sc.Name = fmt.Sprintf("%s-restart-at%d", base.Name, at)
+				} else {
+					sc.CutAt, sc.CutExp = at, dur
+					sc.Name = fmt.Sprintf("%s-at%d-for%dexpiries", base.Name, at, dur)
+				}
+				sc.HorizonExpiries = dur + base.HorizonExpiries
+				x := newExplorer(&sc, budget-time.Since(start))
+				x.prop = j.Prop
+				r := x.run()
+				agg.States += r.States
+				agg.Transitions += r.Transitions
+				agg.Replays += r.Replays
+				agg.Validated += r.Validated
+				agg.Terminal += r.Terminal
+				agg.Done += r.Done
+				agg.Stuck += r.Stuck
+				agg.MaxDepth = max(agg.MaxDepth, r.MaxDepth)
+				agg.Extra["fault_scenarios"]++
+				agg.Extra["max_expiries_to_recover"] = max(agg.Extra["max_expiries_to_recover"], r.Extra["max_expiries"])
+				if !r.Exhaustive {
+					agg.Exhaustive = false
+				}
+				for k, v := range r.Stats.Decisions {
+					agg.Stats.Decisions[k] += v
+				}
+				for k, v := range r.Stats.KindsSent {
+					agg.Stats.KindsSent[k] += v
+				}
+				for _, f := range r.Found {
+					dup := false
+					for _, g := range agg.Found {
+						if g.Key == f.Key {
+							dup = true
+						}
+					}
+					if !dup {
+						agg.Found = append(agg.Found, f)
+					}
+				}
+				if agg.Sample == nil {
+					agg.Sample = r.Sample
+				}
+				if time.Since(start) > budget {
+					agg.Exhaustive = false
+					agg.WallS = time.Since(start).Seconds()
+					return agg
+				}
+			}
+		}
+		agg.WallS = time.Since(start).Seconds()
+		return agg
+	}
+}
+
+func c09Jobs(tier string) []*Job {
+	var jobs []*Job
+	per := 140
+	k := 1
+	if tier == "thorough" {
+		per, k = 2000, 2
+	}
+	// (a) silent validators from the start, incl. the primaries of the first views
+	for _, a := range []int64{-1, 0} {
+		for s := 0; s < 4; s++ {
+			sc := c09Scen(fmt.Sprintf("C09-silent%d-N4-%s", s, amevName(a)), 4, withAMEV(a), withKind(s, kSilent), withHeights(2), withK(k+1), withHorizon(24))
+			sc.MaxDecideView = 1
+			jobs = append(jobs, job(sc, per))
+		}
+	}
+	type ss struct {
+		n      int
+		silent []int
+	}
+	for _, c := range []ss{{5, []int{0}}, {6, []int{5}}, {7, []int{5, 4}}, {7, []int{5}}, {8, []int{5, 4}}, {9, []int{5, 4}}, {10, []int{5, 4, 3}}, {10, []int{5}}} {
+		opts := []opt{withHeights(1), withK(0), withHorizon(4 * c.n * (len(c.silent) + 2))}
+		if tier == "thorough" {
+			opts[1] = withK(1)
+		}
+		for _, s := range c.silent {
+			opts = append(opts, withKind(s, kSilent))
+		}
+		sc := c09Scen(fmt.Sprintf("C09-silent%v-N%d", c.silent, c.n), c.n, opts...)
+		sc.MaxDecideView = len(c.silent)
+		jobs = append(jobs, job(sc, per))
+	}
+	// (b) every cut set of N=4 x every instant of the default schedule x durations; (c) restart of each node at every instant
+	for mask := 1; mask < 16; mask++ {
+		var cs []int
+		for i := 0; i < 4; i++ {
+			if mask&(1<<i) != 0 {
+				cs = append(cs, i)
+			}
+		}
+		for _, a := range []int64{-1, 0} {
+
+			sc := c09Scen(fmt.Sprintf("C09-cut%v-N4-%s", cs, amevName(a)), 4, withAMEV(a), withHeights(1), withK(0), withHorizon(24))
+			sc.CutSet = cs
+			args := map[string]int{"stride": 1}
+			sc.K = 1
+			if tier == "thorough" {
+				sc.K = 2
+			}
+			jobs = append(jobs, &Job{Kind: "c09cuts", Scenario: sc, BudgetS: per, Args: args})
+		}
+	}
+	for r := 0; r < 4; r++ {
+		for _, a := range []int64{-1, 0} {
+			sc := c09Scen(fmt.Sprintf("C09-restart%d-N4-%s", r, amevName(a)), 4, withAMEV(a), withHeights(1), withK(0), withKind(r, kAmnesia), withHorizon(24))
+			sc.Dev.Restart = false
+			sc.RestartNode = r
+			args := map[string]int{"restart": 1, "stride": 1}
+			sc.K = 1
+			if tier == "thorough" {
+				sc.K = 2
+			}
+			jobs = append(jobs, &Job{Kind: "c09cuts", Scenario: sc, BudgetS: per, Args: args})
+		}
+	}
+	// larger N: one representative cut set per size
+	for _, n := range []int{7, 10} {
+		for _, size := range []int{1, n / 2, n - 1} {
+			var cs []int
+			for i := 0; i < size; i++ {
+				cs = append(cs, (i*3+1)%n)
+			}
+			sc := c09Scen(fmt.Sprintf("C09-cut-size%d-N%d", size, n), n, withHeights(1), withK(0), withHorizon(6*n))
+			sc.CutSet = cs
+			jobs = append(jobs, &Job{Kind: "c09cuts", Scenario: sc, BudgetS: per, Args: map[string]int{"stride": 7}})
+		}
+	}
+	return jobs
+}
+
+func init() {
+	e1Check("C09", "E1 timed mode, fault enumeration: (a) every silent validator of N=4 (incl. the primaries of views 0 and 1) and silent sets of size <=F covering the first primaries for N=5..10; (b) all 15 cut sets of N=4 x every (2nd) instant of the fault-free default schedule x cut durations of 1/3/8 timer expiries (a cut-off node neither sends nor receives, in-flight traffic is lost), representative cut sets for N=7,10; (c) restart with empty consensus state of each node at every instant; after the fault the run is synchronous and explored with <=k delivery deviations (reorder, hold); ledger sync of a lagging node is part of the default schedule. Oracle: bounded liveness in virtual time - within a horizon counted in timer expiries every live validator's ledger reaches the target height (else C09/stuck with the stuck state), and with S silent from the start every height is decided in a view <= |S|.",
+		c09Jobs, func(a *Aggregate) string {
+			if a.Extra["fault_scenarios"] < 100 {
+				return "fewer than 100 cut/restart scenarios were run"
+			}
+			return ""
+		})
+}
